@@ -112,6 +112,7 @@ EigendecompositionResult eigendecomposition_impl_randomized(const MatrixType& wm
     MatrixOperationType operation(wm);
 
     DenseMatrix Y = operation(O);
+    ScalarType largest_norm = 0;
     for (IndexType i = 0; i < Y.cols(); i++)
     {
         for (IndexType j = 0; j < i; j++)
@@ -120,7 +121,10 @@ EigendecompositionResult eigendecomposition_impl_randomized(const MatrixType& wm
             Y.col(i) -= r * Y.col(j);
         }
         ScalarType norm = Y.col(i).norm();
-        if (norm < 1e-4)
+        largest_norm = std::max(largest_norm, norm);
+        // (what is left of a column is compared with the columns before it, not with an absolute number,
+        // the scale of the matrix is arbitrary)
+        if (norm < 1e-10 * largest_norm || norm == 0)
         {
             // the range of the matrix is exhausted, the remaining columns stay zero
             for (int k = i; k < Y.cols(); k++)
